@@ -115,7 +115,14 @@ def body(ctx):
         out += lanes.relate(byline, i1, i2, k, op, t, r1_slice=s1, r2_slice=s2)
     # parity rows also obey the special-value rules
     ctx.log("events: %d recorded, %d judged" % (len(events), len(out)))
-    lanes.validate(ctx, "T_Math.tla", out, "c12", plan_lines=plan)
+    def corrupt(e, rng):   # binding probe: the whole result row replaced by the finite value 0.3 (C12 constrains only the special-value lanes)
+        if not isinstance(e.get("r"), list) or e.get("k") == "fault" or e.get("t") not in ("f32", "f64"):
+            return None
+        v = bytes.fromhex("9a99993e") if e["t"] == "f32" else bytes.fromhex("333333333333d33f")
+        c = dict(e)
+        c["r"] = list(v * (len(e["r"]) // len(v))) + e["r"][len(e["r"]) // len(v) * len(v):]
+        return c
+    lanes.validate(ctx, "T_Math.tla", out, "c12", plan_lines=plan, corrupt=corrupt, min_kill=0.3)   # rows without a special-value lane are not constrained by C12
     return dict(exhaustive=False,
                 rule="every special operand of the catalogue (+-0, +-inf, quiet/signalling NaNs with payloads, +-denormals, +-MAX, +-1, domain endpoints +-1ulp, negative integers, overflow thresholds) "
                      "packed and placed among ordinary companions in every lane position, for 26 unary and 3 binary functions, float and double, 22 architectures + scalar; parity of 12 odd/even functions "
